@@ -10,6 +10,8 @@ import (
 	"os"
 	"perkeep.org/pkg/blobserver/memory"
 	"perkeep.org/pkg/schema"
+	"runtime"
+	"slices"
 	"sort"
 	"strings"
 	"sync"
@@ -116,6 +118,8 @@ func genOps(t *rapid.T, pool []vgen.Blob, caps vcompose.Caps, n int) []op {
 type caseDef struct {
 	MaxZip  int // forced maximum zip size for blobpacked nodes (0 = default) when the history uploads a packable file
 	HasFile bool
+	Bulk    int     // encrypt root: number of tiny blobs received first, so that the history crosses the meta roll-up threshold
+	ErrKind int     // shape of the injected error (vstore.ErrPlain, a deadline, a cancellation, an i/o timeout)
 	Preload [][]int // per preload leaf (overlay lower / union subsets): pool indexes stored there before the history
 	Tree    *vcompose.Node
 	Pool    []vgen.Blob
@@ -150,12 +154,39 @@ func addrOf(e *vstore.Event, counts map[string]int) string {
 type result struct {
 	calls     int      // lower-layer calls during the fault phase
 	addrs     []string // their addresses, sorted (dry run)
+	tails     []string // dry run: per mutating operation and (layer, op) kind, the address of the LAST such call
 	violation error
 	inconcl   string
 	hitInside bool // a fault was delivered not as the first lower call of an op
 	retried   bool // a failed mutation was retried after the faults stopped
 	hits      int
 	knownID   string
+}
+
+// every goroutine that runs (or is about to run) encrypt's makePackedMetaBlob was created by recordMeta
+const rollupMark = "created by perkeep.org/pkg/blobserver/encrypt.(*storage).recordMeta"
+
+var stackBuf = make([]byte, 1<<20)
+
+func metaRollupsRunning() int {
+	for {
+		n := runtime.Stack(stackBuf, true)
+		if n < len(stackBuf) {
+			return bytes.Count(stackBuf[:n], []byte(rollupMark))
+		}
+		stackBuf = make([]byte, 2*len(stackBuf))
+	}
+}
+
+func waitNoMetaRollup() bool {
+	dl := time.Now().Add(60 * time.Second)
+	for metaRollupsRunning() > 0 {
+		if time.Now().After(dl) {
+			return false
+		}
+		time.Sleep(50 * time.Microsecond)
+	}
+	return true
 }
 
 type timeoutErr struct{ res vwatch.Result }
@@ -209,6 +240,7 @@ func run(cd *caseDef, faults []fault, recoverAfter bool) (res result) {
 	}
 	defer os.RemoveAll(dir)
 	env := vstore.NewEnv()
+	env.ErrKind = cd.ErrKind
 	b, err := vcompose.Build(env, dir, cd.Tree)
 	if err != nil {
 		res.inconcl = fmt.Sprintf("harness: cannot build %s: %v", cd.Tree, err)
@@ -229,7 +261,9 @@ func run(cd *caseDef, faults []fault, recoverAfter bool) (res result) {
 	stableKeys = map[string]bool{vgen.RefOf("sha224", []byte("never-stored")).String(): true}
 	for _, pb := range cd.Pool {
 		model.Know(pb.Ref, pb.Data)
-		stableKeys[pb.Ref.String()] = true
+		if pb.Class != "bulk" {
+			stableKeys[pb.Ref.String()] = true
+		}
 	}
 	everMaybe := map[blob.Ref]bool{}
 	partialRemoved = map[string]bool{}
@@ -254,6 +288,8 @@ func run(cd *caseDef, faults []fault, recoverAfter bool) (res result) {
 	counts := map[string]int{}
 	callsInOp := 0
 	faultPhase := true
+	curMutating := false
+	tailOfKind := map[string]string{}                    // kind -> last address inside the current mutating op
 	env.Match = func(e *vstore.Event) vstore.Behaviour { // runs under the Env lock: serialised
 		if !faultPhase {
 			return vstore.OK
@@ -262,6 +298,9 @@ func run(cd *caseDef, faults []fault, recoverAfter bool) (res result) {
 		callsInOp++
 		if faults == nil {
 			res.addrs = append(res.addrs, a)
+			if curMutating {
+				tailOfKind[e.Layer+" "+e.Op] = a
+			}
 		}
 		b, ok := fm[a]
 		if !ok {
@@ -286,6 +325,22 @@ func run(cd *caseDef, faults []fault, recoverAfter bool) (res result) {
 	doOp := func(i int, o op, healthy bool) bool {
 		seq0, hit0 := env.Seq(), env.FaultsHit()
 		callsInOp = 0
+		curMutating = o.Kind == "receive" || o.Kind == "remove"
+		defer func() {
+			if faults == nil && !healthy {
+				var ks []string
+				for k := range tailOfKind {
+					ks = append(ks, k)
+				}
+				sort.Strings(ks)
+				for _, k := range ks {
+					res.tails = append(res.tails, tailOfKind[k])
+				}
+			}
+			for k := range tailOfKind {
+				delete(tailOfKind, k)
+			}
+		}()
 		// refs in state maybe when the op starts: a read that is itself hit by a fault must not pin them
 		maybeBefore := map[string][]byte{}
 		for _, e := range model.Entries() {
@@ -349,6 +404,14 @@ func run(cd *caseDef, faults []fault, recoverAfter bool) (res result) {
 			}
 			return nil
 		})
+		if cd.Bulk > 0 && werr == nil && o.Kind == "receive" && model.NumPresent() >= encrypt.SmallMetaCountLimit-8 {
+			// encrypt rolls its small meta blobs up in a goroutine started by the receive: its lower-layer
+			// calls belong to the operation that started it
+			if !waitNoMetaRollup() {
+				res.inconcl = "a meta roll-up goroutine of encrypt is still alive after 60s"
+				return false
+			}
+		}
 		hit := env.FaultsHit() > hit0
 		lastOpErr = opErr
 		if hit && !healthy && (o.Kind == "fetch" || o.Kind == "stat" || o.Kind == "enumerate") {
@@ -575,6 +638,10 @@ func genCase(t *rapid.T) *caseDef {
 	pool := vgen.GenPool(t, 4, 10, false)
 	caps := treeCaps(tree)
 	cd := &caseDef{Tree: tree, Pool: pool, Desc: tree.String()}
+	cd.ErrKind = rapid.SampledFrom([]int{vstore.ErrPlain, vstore.ErrPlain, vstore.ErrDeadline, vstore.ErrCanceled, vstore.ErrTimeout}).Draw(t, "errKind")
+	if cd.ErrKind != vstore.ErrPlain {
+		cd.Desc += fmt.Sprintf(" [injected errors of kind %d]", cd.ErrKind)
+	}
 	if caps.Preloaded {
 		for li := 0; li < 3; li++ { // at most 3 preload leaves (union subsets); overlay has one
 			var ixs []int
@@ -588,6 +655,22 @@ func genCase(t *rapid.T) *caseDef {
 	}
 	cd.Ops = genOps(t, pool, caps, rapid.IntRange(3, 10).Draw(t, "nOps"))
 	cd.Heal = genOps(t, pool, caps, rapid.IntRange(3, 5).Draw(t, "nHeal"))
+	// an encrypt root sometimes first receives a hundred tiny blobs: the receive that crosses
+	// encrypt.SmallMetaCountLimit starts the background roll-up of the small meta blobs (index reads, one
+	// packed meta upload, a hundred meta removals), and the faults land in there as well
+	if tree.Type == "encrypt" && caps.Receive && rapid.IntRange(0, 3).Draw(t, "bulk") == 0 {
+		cd.Bulk = rapid.IntRange(encrypt.SmallMetaCountLimit-3, encrypt.SmallMetaCountLimit+8).Draw(t, "bulkN")
+		seed := rapid.Uint64Range(1, 1<<20).Draw(t, "bulkSeed")
+		base := len(cd.Pool)
+		var bulkOps []op
+		for i := 0; i < cd.Bulk; i++ {
+			d := []byte(fmt.Sprintf("bulk blob %d of series %d", i, seed))
+			cd.Pool = append(cd.Pool, vgen.Blob{Ref: vgen.RefOf("sha224", d), Data: d, Class: "bulk"})
+			bulkOps = append(bulkOps, op{Kind: "receive", Idx: []int{base + i}, Reader: "whole"})
+		}
+		cd.Ops = append(bulkOps, cd.Ops...)
+		cd.Desc += fmt.Sprintf(" +%d tiny blobs first", cd.Bulk)
+	}
 	// trees with a blobpacked node sometimes upload a packable file: the fault then lands inside the pack
 	// (zip stored, meta batch, loose-blob deletion, whole-file row) while the same instance keeps running
 	hasBP := false
@@ -685,6 +768,22 @@ func TestSingleFaults(t *testing.T) {
 				g := groups[kind]
 				ks = append(ks, g[rapid.IntRange(0, len(g)-1).Draw(t, "k")])
 			}
+			// plus up to three "tail" addresses: the last call of its kind inside a receive or remove
+			// (the verifying stat after a rename, the index write after the data) - a failure that
+			// arrives after the operation's point of no return
+			if len(dry.tails) > 0 {
+				pos := map[string]int{}
+				for i, a := range dry.addrs {
+					pos[a] = i
+				}
+				nt := min(3, len(dry.tails))
+				for _, ti := range rapid.SliceOfNDistinct(rapid.IntRange(0, len(dry.tails)-1), nt, nt, rapid.ID[int]).Draw(t, "tailAddrs") {
+					if k, ok := pos[dry.tails[ti]]; ok && !slices.Contains(ks, k) {
+						ks = append(ks, k)
+						evid.R.Label("single/fault-at-last-call-of-its-kind-in-a-mutation")
+					}
+				}
+			}
 		}
 		recoverRoot := cd.Tree.Type == "diskpacked" || cd.Tree.Type == "encrypt" || cd.Tree.Type == "blobpacked"
 		for _, k := range ks {
@@ -700,6 +799,10 @@ func TestSingleFaults(t *testing.T) {
 				if cd.HasFile {
 					evid.R.Label("single/history-uploads-packable-file")
 				}
+				if cd.Bulk > 0 {
+					evid.R.Label("single/history-crosses-encrypt-meta-rollup-threshold")
+				}
+				evid.R.Label(fmt.Sprintf("single/injected-error-kind-%d", cd.ErrKind))
 				if res.inconcl != "" {
 					t.Fatalf("VERIF-INCONCLUSIVE: %s", res.inconcl)
 				}
@@ -768,6 +871,9 @@ func TestFaultBursts(t *testing.T) {
 		evid.R.Label("burst/root=" + cd.Tree.Type)
 		if cd.HasFile {
 			evid.R.Label("burst/history-uploads-packable-file")
+		}
+		if cd.Bulk > 0 {
+			evid.R.Label("burst/history-crosses-encrypt-meta-rollup-threshold")
 		}
 		if res.inconcl != "" {
 			t.Fatalf("VERIF-INCONCLUSIVE: %s", res.inconcl)
